@@ -49,15 +49,141 @@ type opCase struct {
 func opCases(p *Program, fn *ssa.Function, universe []string) []opCase {
 	ms := p.maySetOf(fn, "expr.OpToken.Tag", universe)
 	var out []opCase
+	tagVal := map[string]int64{}
+	for v, n := range constNames(p.Lang.Types, "TokenTag") {
+		tagVal[n] = v
+	}
 	for _, rc := range p.successResults(fn) {
 		oc := opCase{Ret: rc.Ret, Value: abbrevBinary(rc.Value), Guards: map[string]bool{}}
 		oc.Ops = ms.At(rc.Ret.Block())
 		for _, g := range rc.Guards {
 			oc.Guards[abbrevBinary(g)] = true
 		}
+		// `return NewCell(NewValue(b))` with a computed boolean b is the same table row as the two
+		// returns `if b { …true } …false`: when b depends on the operator only it is evaluated per
+		// operator; when it is the truthiness of an operand it stands for both booleans
+		if bv := boolInsideCell(rc.Ret); bv != nil && rc.Inner == nil {
+			var rest []string
+			split := false
+			for _, op := range oc.Ops {
+				if val, known := evalOpBool(p, bv, tagVal[op], 0); known {
+					c2 := oc
+					c2.Ops = []string{op}
+					c2.Value = "cell{val(" + fmt.Sprint(val) + ")}"
+					out = append(out, c2)
+					split = true
+				} else {
+					rest = append(rest, op)
+				}
+			}
+			if split {
+				oc.Ops = rest
+				if len(rest) == 0 {
+					continue
+				}
+			}
+			if call, _ := callOf(bv); call != nil && staticCalleeIs(call, "(*lang.Value).isTruthy") {
+				for _, v := range []string{"true", "false"} {
+					c2 := oc
+					c2.Value = "cell{val(" + v + ")}"
+					out = append(out, c2)
+				}
+				continue
+			}
+		}
 		out = append(out, oc)
 	}
 	return out
+}
+
+// boolInsideCell: the non-constant boolean b of a return `NewCell(NewValue(b)), nil`.
+func boolInsideCell(ret *ssa.Return) ssa.Value {
+	res := effectiveResults(ret)
+	if len(res) == 0 {
+		return nil
+	}
+	cell, _ := callOf(res[0])
+	if cell == nil || !staticCalleeIs(cell, "lang.NewCell") {
+		return nil
+	}
+	val, _ := callOf(cell.Call.Args[0])
+	if val == nil || !staticCalleeIs(val, "lang.NewValue") {
+		return nil
+	}
+	mi, ok := val.Call.Args[0].(*ssa.MakeInterface)
+	if !ok || !isBoolType(mi.X.Type()) {
+		return nil
+	}
+	if _, isC := mi.X.(*ssa.Const); isC {
+		return nil
+	}
+	return mi.X
+}
+
+// evalOpBool evaluates a boolean that is computed from the operator tag alone (comparisons of
+// expr.OpToken.Tag with constants, !, and the phis of && / ||) for one operator.
+func evalOpBool(p *Program, v ssa.Value, op int64, depth int) (bool, bool) {
+	if depth > 8 {
+		return false, false
+	}
+	switch x := v.(type) {
+	case *ssa.Const:
+		if b, ok := constBool(x); ok {
+			return b, true
+		}
+	case *ssa.UnOp:
+		if x.Op == token.NOT {
+			b, known := evalOpBool(p, x.X, op, depth+1)
+			return !b, known
+		}
+	case *ssa.BinOp:
+		if x.Op != token.EQL && x.Op != token.NEQ {
+			return false, false
+		}
+		for _, pair := range [][2]ssa.Value{{x.X, x.Y}, {x.Y, x.X}} {
+			if k, ok := constInt(pair[1]); ok && p.Render(pair[0]) == "expr.OpToken.Tag" {
+				return (k == op) == (x.Op == token.EQL), true
+			}
+		}
+	case *ssa.Phi:
+		have, val := false, false
+		// is the edge from -> to taken for this operator? (decided by the branch at the end of `from`,
+		// and by the branches that lead to `from` when it has a single predecessor)
+		var taken func(from, to *ssa.BasicBlock, d int) (bool, bool)
+		taken = func(from, to *ssa.BasicBlock, d int) (bool, bool) {
+			if d > 6 {
+				return false, false
+			}
+			if ifi, ok := from.Instrs[len(from.Instrs)-1].(*ssa.If); ok {
+				cnd, known := evalOpBool(p, ifi.Cond, op, depth+1)
+				if !known {
+					return false, false
+				}
+				if cnd != (from.Succs[0] == to) {
+					return false, true
+				}
+			}
+			if len(from.Preds) == 1 && !from.Dominates(from.Preds[0]) && x.Block().Idom() != nil && x.Block().Idom() != from {
+				return taken(from.Preds[0], from, d+1)
+			}
+			return true, true
+		}
+		for i, e := range x.Edges {
+			pred := x.Block().Preds[i]
+			if tk, known := taken(pred, x.Block(), 0); !known {
+				return false, false
+			} else if !tk {
+				continue // this edge is not taken for this operator
+			}
+			b, known := evalOpBool(p, e, op, depth+1)
+			if !known || (have && b != val) {
+				return false, false
+			}
+			have, val = true, b
+		}
+		return val, have
+	}
+	return false, false
 }
 
 // binaryOperatorUniverse: the operator tags the parser can put on an ExprBinary node.
